@@ -21,6 +21,8 @@ def run(prog, chk):
     close_table(prog, chk)
     process_table(prog, chk)
     addleaf_table(prog, chk)
+    from .C09 import work_buffer_rule
+    work_buffer_rule(prog, chk, rule="C16.workbuf")     # a metadata leaf accepted into the tree must be serializable where its proof is extracted
     _run(prog, chk)
 
 
